@@ -48,7 +48,10 @@ def run(ctx):
         seen = rep["extra"]["seen"]
         need = ["entry:rt", "entry:rt_as_emitter", "entry:core", "entry:macro", "entry:macro_evt", "entry:direct",
                 "entry:macro_lvl", "entry:evt_macro", "entry:span_evt", "entry:metric_evt", "entry:span_guard",
-                "entry:span_macro", "entry:rt_with", "f:fnleaf", "e:fnleaf", "f:always",
+                "entry:span_macro", "entry:rt_with", "entry:rt_map", "f:fnleaf", "e:fnleaf", "f:always",
+                "env:ref", "env:box", "env:arc", "env:opt", "env:erased", "env:assert", "env:optnone", "env:empty",
+                "wf:wrap:ref", "wf:wrap:erased", "wf:wrap:erased_local", "wf:wrapfn:ref", "wf:wrapfn:erased",
+                "wf:wrapfn:erased_local",
                 "f:and", "f:or", "f:none", "f:opt", "f:ref", "f:box", "f:arc", "f:erased",
                 "e:and", "e:wrap", "e:none", "e:opt", "e:ref", "e:box", "e:arc", "e:erased",
                 "f:assert", "e:assert", "e:wrapfn", "e:rt"]
@@ -71,7 +74,9 @@ def run(ctx):
         "the order in which an And destination reaches its sides and the number of clock reads are not specified (only recorded as drift)",
         "module and template are fixed; they do not take part in the pipeline decision",
         "the ambient context is a fixed Ctxt whose current properties are a slice (the thread-local context is C03's subject); "
-        "the clock is scripted",
+        "the clock is scripted; the runtime holds them (and an Empty rng) by value, borrowed, boxed, shared, as Some(..), type-erased "
+        "or inside AssertInternal (scenario V; `no clock, nothing ambient` also as Option::None / Empty); the stamped generic trees "
+        "use the by-value form only",
         "blocking_flush: all model destinations flush at once, so only `a tree has flushed iff all of its destinations have` "
         "(= true) is decided; timeouts are not modelled",
         "the extent is an input class (absent, point, forward / empty / inverted range) crossed with every entry point; a span "
